@@ -126,6 +126,13 @@ def monitor(ck, sc, r):
             viol("future resolved without metadata although acks != 0", {"send": s})
             continue
         lg = r["logs"][str(s["p"])]
+        if s.get("batch_index") == -1:
+            # appended later to the user-held builder: its index inside the batch depends on
+            # interleaved send() calls; it must sit in the log, in the batch the future names
+            at = [x for x in lg["records"] if x["rid"] == s["rid"] and x["offset"] >= md["offset"]]
+            if len(at) != 1:
+                viol("a record appended to an open batch is not in the log exactly once", {"send": s})
+            continue
         at = [x for x in lg["records"] if x["offset"] == md["offset"] + s.get("batch_index", 0)]
         if md["partition"] != s["p"] or md["topic"] != "t":
             viol("metadata names the wrong partition", {"send": s})
